@@ -28,6 +28,7 @@ fn streams(t: Tier) -> Vec<StreamDef> {
         st("suffix_hostile", t.n(40_000, 2_000_000, 60, 10_000), false),
         st("sequence", t.n(10_000, 500_000, 30, 3_000), false),
         st("avp_concat", t.n(30_000, 1_500_000, 60, 8_000), false),
+        st("big", t.n(320, 8000, 0, 320), false),
     ]
 }
 
@@ -308,6 +309,45 @@ fn run(ctx: &mut Ctx) {
             let (b, _) = wire::hostile(&mut ctx.rng);
             judge_suffix(ctx, &b, "hostile");
         }
+        "big" => match wire::big_input(&mut ctx.rng) {
+            (wire::Big::Msg(b), _) => judge_suffix(ctx, &b, "big"),
+            (wire::Big::Avps(b), _) => {
+                // compositionality on a long list: the whole list versus its halves split at a
+                // record boundary found by the independent walker
+                ctx.rep.case(&b[b.len().saturating_sub(64)..], true);
+                let mut at = 0usize;
+                let mut cut = 0usize;
+                while at + 6 <= b.len() {
+                    let len = (((b[at] >> 6) as usize) << 8) | b[at + 1] as usize;
+                    if len < 6 || at + len > b.len() {
+                        break;
+                    }
+                    at += len;
+                    if cut == 0 && at >= b.len() / 2 {
+                        cut = at;
+                    }
+                }
+                if cut == 0 {
+                    return;
+                }
+                for rk in [Rk::Slice, Rk::ContractSlice] {
+                    let whole = exec::decode_avps(&b, rk);
+                    let (l, r) = (exec::decode_avps(&b[..cut], rk), exec::decode_avps(&b[cut..], rk));
+                    match (whole.out, l.out, r.out) {
+                        (Out::Ok(w), Out::Ok(mut x), Out::Ok(y)) => {
+                            x.extend(y);
+                            if w != x {
+                                ctx.violate("C08:concat:not-compositional:long-list", format!("a {}-octet AVP list decodes to {} results, its two halves (cut at record boundary {}) to {} results", b.len(), w.len(), cut, x.len()), J::obj(vec![("len", J::U(b.len() as u64)), ("cut", J::U(cut as u64)), ("tail_hex", J::hex(&b[b.len().saturating_sub(48)..]))]));
+                            } else {
+                                ctx.rep.bucket("concat.long_list.ok");
+                            }
+                        }
+                        (w, _, _) if w.abnormal() => ctx.violate(format!("C08:concat:{}", w.class()), format!("decoding a {}-octet AVP list ended with {}", b.len(), out_str(&w)), J::obj(vec![("len", J::U(b.len() as u64))])),
+                        _ => {}
+                    }
+                }
+            }
+        },
         "sequence" => judge_sequence(ctx),
         "avp_concat" => judge_concat(ctx),
         _ => unreachable!(),
